@@ -787,12 +787,12 @@ def gen_cases(ctx, thorough):
             for o1, o2 in itertools.product(sel[:25], repeat=2):
                 cases.append((s, (o1, o2)))
     if thorough:
-        for s in [s for i, s in enumerate(starts) if i % 18 == 0]:
+        for s in [s for i, s in enumerate(starts) if i % 24 == 0]:
             for t in itertools.product(small[:20], repeat=3):
                 cases.append((s, t))
     n_exh = len(cases)
     rng = ctx.rng
-    for n in range(12000 if thorough else 2000):
+    for n in range(8000 if thorough else 2000):
         s = rng.choice(starts)
         sel = sel_alphabet(s)
         k = rng.randint(3, 7)
